@@ -1,5 +1,6 @@
 import LenaModel.Model.C08
 import LenaModel.Lemmas.C08
+import LenaModel.Lemmas.C08Fmt
 /-! # C08 — property theorems (context addressing, formatting and update elements)
 
 Vocabulary: `getPath v p` is the item a key path `p` names (`none`: absent, or a scalar on the way);
@@ -606,5 +607,157 @@ theorem fuw_errors (v : Val) (hv : NotTemplate v) (d : Val) (p : List String) (h
     simp only
     rw [splitDots_joinDots _ hne (fun k hk => (hp k hk).2), nestList_eq _ _ hne]
     simp [updateRecursively, nestPath]
+
+/-! ## 6. `format_context` renders exactly the addressed items -/
+
+/-- a piece of a template as characters: a field is written `{{dotted.name}}` -/
+def Piece.toTP : Piece → TP
+  | .lit s => .lit s.toList
+  | .field p => .fld (joinDots p).toList
+
+/-- the template string of a list of pieces -/
+def templateString (ps : List Piece) : String := String.ofList (render0 (ps.map Piece.toTP))
+
+/-- "template strings built from literals and fields": a literal has no brace, a field is a key path
+whose keys have none of the characters `{ } ! :` -/
+def Piece.WF : Piece → Prop
+  | .lit s => ∀ c ∈ s.toList, c ≠ '{' ∧ c ≠ '}'
+  | .field p => WFPath p ∧ ∀ k ∈ p, ∀ c ∈ k.toList, c ≠ '{' ∧ isTerm c = false
+
+theorem mem_joinDotsC : ∀ (ws : List (List Char)) (c : Char), c ∈ joinDotsC ws → c = '.' ∨ ∃ w ∈ ws, c ∈ w
+  | [], c, h => by simp [joinDotsC] at h
+  | [w], c, h => by simp only [joinDotsC] at h; exact Or.inr ⟨w, by simp, h⟩
+  | w :: w' :: ws, c, h => by
+    simp only [joinDotsC, List.mem_append, List.mem_cons] at h
+    rcases h with h | h | h
+    · exact Or.inr ⟨w, by simp, h⟩
+    · exact Or.inl h
+    · rcases mem_joinDotsC (w' :: ws) c h with h | ⟨x, hx, hc⟩
+      · exact Or.inl h
+      · exact Or.inr ⟨x, by simp at hx ⊢; exact Or.inr hx, hc⟩
+
+theorem toTP_ok (p : Piece) (h : p.WF) : p.toTP.Ok := by
+  cases p with
+  | lit s => exact h
+  | field q =>
+    intro c hc
+    simp only [joinDots, String.toList_ofList] at hc
+    rcases mem_joinDotsC _ c hc with rfl | ⟨w, hw, hcw⟩
+    · decide
+    · simp only [List.mem_map] at hw
+      obtain ⟨k, hk, rfl⟩ := hw
+      exact h.2 k hk c hcw
+
+/-- the strings that `str()` gives for the fields -/
+def fieldStrs (ctx : Entries) : List Piece → List String
+  | [] => []
+  | .lit _ :: r => fieldStrs ctx r
+  | .field p :: r =>
+    (match getPath (.dict ctx) p with
+     | some (.leaf a) => pyStr a
+     | _ => "") :: fieldStrs ctx r
+
+/-- the items the fields name -/
+def fieldVals (ctx : Entries) : List Piece → List Val
+  | [] => []
+  | .lit _ :: r => fieldVals ctx r
+  | .field p :: r => ((getPath (.dict ctx) p).getD (.leaf .none)) :: fieldVals ctx r
+
+theorem lookupArgs_fields (ctx : Entries) : ∀ (ps : List Piece), (∀ p ∈ ps, p.WF) →
+    lookupArgs (.dict ctx) (namesOf (ps.map Piece.toTP)) =
+      if fieldsPresent ctx ps = true then .ok (fieldVals ctx ps) else .error .lenaKeyError
+  | [], _ => by simp [namesOf, lookupArgs, fieldsPresent, fieldVals]
+  | .lit s :: r, h => by
+    have ih := lookupArgs_fields ctx r (fun p hp => h p (by simp [hp]))
+    simp only [List.map_cons, Piece.toTP, namesOf, fieldsPresent, fieldVals]
+    exact ih
+  | .field q :: r, h => by
+    have ih := lookupArgs_fields ctx r (fun p hp => h p (by simp [hp]))
+    have hq : (Piece.field q).WF := h _ (by simp)
+    simp only [List.map_cons, Piece.toTP, namesOf, String.ofList_toList, lookupArgs]
+    rw [get_eq_path ctx _ q none (notations_agree q hq.1).1]
+    cases hg : getPath (.dict ctx) q with
+    | none => simp [fieldsPresent, hg]
+    | some w =>
+      cases hfp : fieldsPresent ctx r with
+      | false =>
+        rw [hfp] at ih
+        simp only [Bool.false_eq_true, if_false] at ih
+        simp [ih, fieldsPresent, hfp]
+      | true =>
+        rw [hfp] at ih
+        simp only [if_true] at ih
+        simp [ih, fieldsPresent, hfp, hg, fieldVals]
+
+theorem strOfVals_fields (ctx : Entries) : ∀ (ps : List Piece), fieldsPresent ctx ps = true → LeafFields ctx ps →
+    strOfVals (fieldVals ctx ps) = .ok (fieldStrs ctx ps)
+  | [], _, _ => rfl
+  | .lit s :: r, hp, hl => by
+    simpa [fieldVals, fieldStrs] using strOfVals_fields ctx r (by simpa [fieldsPresent] using hp)
+      (fun p hp => hl p (by simp [hp]))
+  | .field q :: r, hp, hl => by
+    simp only [fieldsPresent, Bool.and_eq_true] at hp
+    have ih := strOfVals_fields ctx r hp.2 (fun p hp => hl p (by simp [hp]))
+    obtain ⟨w, hw⟩ := Option.isSome_iff_exists.1 hp.1
+    obtain ⟨a, rfl⟩ := hl q (by simp) w hw
+    simp [fieldVals, fieldStrs, hw, strOfVals, strOfVal, ih]
+
+theorem pyFormat_fields (ctx : Entries) : ∀ (ps : List Piece), (∀ p ∈ ps, p.WF) →
+    pyFormat (fstrOf (ps.map Piece.toTP)) (fieldStrs ctx ps) = .ok (renderSpec ctx ps).toList
+  | [], _ => by simp [fstrOf, pyFormat, renderSpec]
+  | .lit s :: r, h => by
+    have ih := pyFormat_fields ctx r (fun p hp => h p (by simp [hp]))
+    simp only [List.map_cons, Piece.toTP, fstrOf, fieldStrs, renderSpec, String.toList_append]
+    exact pyFormat_free _ _ _ _ (h (.lit s) (by simp)) ih
+  | .field q :: r, h => by
+    have ih := pyFormat_fields ctx r (fun p hp => h p (by simp [hp]))
+    simp only [List.map_cons, Piece.toTP, fstrOf, fieldStrs, renderSpec, String.toList_append]
+    exact pyFormat_field _ _ _ _ ih
+
+/-- **format_exact** — "format_context renders exactly the addressed items and raises LenaKeyError when
+one is absent": for every template built from brace-free literals and any number of `{{key.path}}`
+fields the construction succeeds, and for every context the call raises `LenaKeyError` if (and only if:
+the other outcome is a value) some field names no item, and otherwise returns the literals
+interleaved with `str(item)` of the fields (for items that are scalars; `str` of a dictionary is not
+modelled) -/
+theorem format_exact (ps : List Piece) (hw : ∀ p ∈ ps, p.WF) :
+    ∃ f, formatInit (some (templateString ps)) = .ok f ∧
+      ∀ ctx : Entries,
+        (fieldsPresent ctx ps = false → formatCall f (.dict ctx) = .error .lenaKeyError) ∧
+        (fieldsPresent ctx ps = true → LeafFields ctx ps → formatCall f (.dict ctx) = .ok (renderSpec ctx ps)) := by
+  have hok : ∀ p ∈ ps.map Piece.toTP, p.Ok := by
+    intro p hp
+    simp only [List.mem_map] at hp
+    obtain ⟨q, hq, rfl⟩ := hp
+    exact toTP_ok q (hw q hq)
+  refine ⟨_, formatInit_render0 _ hok, ?_⟩
+  intro ctx
+  constructor
+  · intro hp
+    simp [formatCall, lookupArgs_fields ctx ps hw, hp]
+  · intro hp hl
+    simp only [formatCall, lookupArgs_fields ctx ps hw, hp, if_true, strOfVals_fields ctx ps hp hl,
+      pyFormat_fields ctx ps hw, String.ofList_toList]
+
+example : (Piece.field ["x", "y"]).WF := by
+  refine ⟨?_, ?_⟩
+  · intro k hk; simp at hk; rcases hk with rfl | rfl <;> decide
+  · intro k hk; simp at hk; rcases hk with rfl | rfl <;> decide
+
+example : templateString [.field ["x", "y"], .lit "_", .field ["z"]] = "{{x.y}}_{{z}}" := by decide
+
+/-- **format_init_total** — `format_context` itself never raises anything but `LenaValueError` for a
+string (commit 5478e2e: the scanner cannot run past the end) and `LenaTypeError` for a non-string -/
+theorem format_init_total (s : Option String) :
+    (∃ f, formatInit s = .ok f) ∨ formatInit s = .error .lenaValueError ∨
+      (s = none ∧ formatInit s = .error .lenaTypeError) := by
+  cases s with
+  | none => exact Or.inr (Or.inr ⟨rfl, rfl⟩)
+  | some s =>
+    rcases formatInit_total s with h | h
+    · exact Or.inl h
+    · exact Or.inr (Or.inl h)
+
+example : formatInit (some "}}{{") = .error .lenaValueError := by decide
 
 end Lena.C08
